@@ -1339,3 +1339,12 @@ fn advertised_window(recv_buf_cap: usize, recv_buf_len: usize) -> u16 {
 }
 
 const DEFAULT_WINDOW: u16 = 65535;
+
+/// Verification hook (area nettcp): socket-table index sizes of this
+/// kernel. Read-only.
+#[cfg(turmoil_verif)]
+impl Kernel {
+    pub(crate) fn verif_tcp_counts(&self) -> (usize, usize, usize, usize, usize) {
+        self.sockets.verif_tcp_counts()
+    }
+}
